@@ -22,12 +22,12 @@ variable {F : Type} [NumAlg F]
 `round(start) ≤ p < round(start) + round(length)` -/
 theorem substring3_spec (m : String) (start len : F) :
     substringM m start (some len) = Spec.fnSubstring3 m start len := by
-  unfold substringM Spec.fnSubstring3 Spec.xround
+  unfold substringM Spec.fnSubstring3 Spec.roundHalfUp xpathRoundM
   rfl
 
 theorem substring2_spec (m : String) (start : F) :
     substringM m start none = Spec.fnSubstring2 m start := by
-  unfold substringM Spec.fnSubstring2 Spec.xround
+  unfold substringM Spec.fnSubstring2 Spec.roundHalfUp xpathRoundM
   rfl
 
 /-- `substring` never fails: the model has explicit crash outcomes and produces none here, for
@@ -93,8 +93,9 @@ theorem nodeset_argument_empty (d : Doc) (cfg : ECfg) (c : Ref) (b : String) :
   simp [callFn, bind, Except.bind]
 
 /-- T0: the bounds `substringFunc` computes are the ones `substringM` models:
-`first = floor(start+0.5)`, `last = first + floor(length+0.5)` (or +Inf), clipped to `[1, len+1]` -/
+`first = xpathRound(start)`, `last = first + xpathRound(length)` (or +Inf), clipped to `[1, len+1]`
+(`xpathRound` itself is `xpathRoundM`, compared with the code by the substring sweep) -/
 theorem substring_bounds_source_ok : Generated.substringBoundsSrc =
-    ["first:=math.Floor(start+0.5)", "last:=math.Inf(1)", "last=first+math.Floor(length+0.5)", "first=1", "last=float64(len(m)+1)"] := rfl
+    ["first:=xpathRound(start)", "last:=math.Inf(1)", "last=first+xpathRound(length)", "first=1", "last=float64(len(m)+1)"] := rfl
 
 end XPathV.Theorems.C09
